@@ -450,11 +450,6 @@ pub fn explore<const N: usize>(c: &Cfg, seeds: &[Vec<VOp>]) -> RunOut {
                         let mut counters = BTreeMap::new();
                         let mut findings = vec![];
                         for (hi, hist) in frontier_ref[ci * chunk..((ci + 1) * chunk).min(frontier_ref.len())].iter().enumerate() {
-                            // part of the states are expanded right after calls on unrelated objects that fail
-                            // half-way (or complete): what they leave behind in the thread must not matter
-                            if crate::dirty::maybe(ci * chunk + hi, 16) {
-                                *counters.entry("states_expanded_right_after_calls_on_unrelated_objects".into()).or_insert(0) += 1;
-                            }
                             if stop.load(std::sync::atomic::Ordering::Relaxed) || t0.elapsed() > c.wall {
                                 stop.store(true, std::sync::atomic::Ordering::Relaxed);
                                 break;
@@ -463,7 +458,16 @@ pub fn explore<const N: usize>(c: &Cfg, seeds: &[Vec<VOp>]) -> RunOut {
                             journal(c, hist);
                             let mut scratch = BTreeMap::new();
                             let (g0, clean0, _) = replay_hist::<N>(c, hist, &mut scratch);
+                            // part of the states are expanded right after calls on unrelated objects that fail
+                            // half-way (or complete): what they leave behind in the thread must not matter. The
+                            // state is built BEFORE them (its own history could clean up what they leave)
+                            if crate::dirty::maybe(ci * chunk + hi, 16) {
+                                *counters.entry("states_expanded_right_after_calls_on_unrelated_objects".into()).or_insert(0) += 1;
+                            }
                             for op in ops_ref {
+                                // (the calls on unrelated objects once more before every call of such a state:
+                                // the call before may have cleaned up what they left)
+                                crate::dirty::again();
                                 // a state whose history stayed within the limits is continued on a verified-exact
                                 // copy (or rebuilt from scratch), so that a defect of clone() is not blamed on the
                                 // call made next; damaged objects are simply cloned (the sanitizer watches)
